@@ -43,6 +43,9 @@ pub enum Fate {
     /// passes; its first output lines begin with `>` (`>>> prompt`, `>quoted`): as expectation
     /// lines they follow the command directly and must not be taken for continuation lines
     GtLines,
+    /// ends with `code` (the document expects none, i.e. 0); its last output lines END in `[n]`
+    /// (`rows affected [3]`): expectations, not the line that states the expected exit code
+    BracketLines { code: i32 },
 }
 
 #[derive(Clone, Debug)]
@@ -172,6 +175,13 @@ impl G {
                     None => ops.push(Op::Hang),
                 }
             }
+            Fate::BracketLines { code } => {
+                for text in [format!("{}-a\n", tag), format!("items {} [{}]\n", tag, code), format!("{}-z\n", tag)] {
+                    ops.push(Op::Out { fd: 1, data: text.as_str().into() });
+                    ops.push(Op::Out { fd: 2, data: text.as_str().into() });
+                }
+                ops.push(Op::Status { code: *code });
+            }
             Fate::GtLines => {
                 for (fd, text) in [(1u8, format!(">>>{}-a\n", tag)), (1, format!(">{}-b\n", tag)), (2, format!(">={}-e\n", tag)), (1, format!("{}-c\n", tag))] {
                     ops.push(Op::Out { fd, data: text.as_str().into() });
@@ -200,7 +210,13 @@ impl G {
         programs.insert(nonce.clone(), ops);
         Test {
             title: format!("T{} {}", plan.title_tag, nonce),
-            expr: format!("vsim-cmd @vs:{}@ run @ve:{}@", nonce, nonce),
+            // (every fifth expression carries text that is not ASCII, a zero-width no-break
+            // space - the byte-order mark, when it stands at the start of a file - included)
+            expr: if self.rng.below(5) == 0 {
+                format!("vsim-cmd @vs:{}@ run {}gr{}{}e {} @ve:{}@", nonce, '\u{feff}', '\u{fc}', '\u{df}', '\u{feff}', nonce)
+            } else {
+                format!("vsim-cmd @vs:{}@ run @ve:{}@", nonce, nonce)
+            },
             nonce,
             expected_code,
             expectations: if no_expectations { vec![] } else { vec!["?".into()] },
@@ -220,11 +236,15 @@ fn line_expectations(stream: &[u8]) -> Option<Vec<String>> {
     let body = if ends_nl { &text[..text.len() - 1] } else { text };
     let parts: Vec<&str> = body.split('\n').collect();
     for (i, l) in parts.iter().enumerate() {
-        // (`>` is an ordinary character of an expectation unless `> ` starts the line)
+        // (`>` is an ordinary character of an expectation unless `> ` starts the line; blanks and
+        // square brackets are ordinary too, as long as the line is not `[n]` alone)
         let safe = !l.is_empty()
-            && l.bytes().all(|c| c.is_ascii_alphanumeric() || c == b'-' || c == b'_' || c == b'.' || c == b'>' || c == b'=')
+            && l.bytes().all(|c| c.is_ascii_alphanumeric() || matches!(c, b'-' | b'_' | b'.' | b'>' | b'=' | b' ' | b'[' | b']'))
             && !l.starts_with('-')
-            && !l.starts_with("> ");
+            && !l.starts_with("> ")
+            && !l.starts_with(' ')
+            && !l.ends_with(' ')
+            && !l.starts_with('[');
         if !safe {
             return None;
         }
@@ -298,6 +318,9 @@ pub fn doc(path: &str, format: Format, tests: Vec<Test>) -> Doc {
         loose_front_matter: false,
         fence_trailing_space: false,
         stored_at: None,
+        file_symlink: false,
+        fence_wide_gap: false,
+        long_closing_fence: false,
     }
 }
 
@@ -396,6 +419,8 @@ pub fn fate_catalogue() -> Vec<(&'static str, Plan)> {
         ("detached", Plan::new(Fate::Detached)),
         ("bg-hold", Plan::new(Fate::BgHold { ns: 500 * MS })),
         ("gt-lines", Plan::new(Fate::GtLines)),
+        ("bracket-lines-ok", Plan::new(Fate::BracketLines { code: 0 })),
+        ("bracket-lines-wrong-code", Plan::new(Fate::BracketLines { code: 7 })),
         ("close-then-linger-short", Plan::new(Fate::CloseThenLinger { ns: Some(300 * MS) })),
         ("late-close-ok", Plan::new(Fate::LateClose { before_ns: 800 * MS, after_ns: 800 * MS }).cfg(TestCfg { timeout_ns: Some(2 * SEC), ..Default::default() })),
         ("late-close-over", Plan::new(Fate::LateClose { before_ns: 1200 * MS, after_ns: 1700 * MS }).cfg(TestCfg { timeout_ns: Some(2 * SEC), ..Default::default() })),
@@ -717,6 +742,8 @@ pub fn lane_timing(tier: Tier, seed: u64) -> Vec<Scenario> {
                             let format = if script && tier == Tier::Cli { Format::Cram } else { Format::Md };
                             let path = if format == Format::Cram { "timing.t" } else { "timing.md" };
                             let mut d = doc(path, format, tests);
+                            d.fence_wide_gap = pos == 2;
+                            d.long_closing_fence = pos == 1;
                             if tl == TestLim::ShorterInDefaults {
                                 // applies to every test case of the document; the others are fast
                                 d.defaults.timeout_ns = test_ns;
